@@ -19,6 +19,7 @@ import itertools
 import json
 import math
 import os
+import tempfile
 import textwrap
 from fractions import Fraction as Fr
 
@@ -30,9 +31,9 @@ import params_c16  # noqa: F401  (registers the ParamsC16 extractor before regen
 META = {
     "id": "C16",
     "level": "proof",
-    "technique": "Coq theorems over an exact-rational model of draw/reset_momentum/kinetic_energy/modify_velocities (algebra by ring/field, unit constants by vm_compute on constants regenerated from the sources) + lock-step of the extracted model vs the real engine classes with a recording random generator",
-    "text": "Unbounded theorems over Q: m*v^2 = kT*z^2 for every drawn component (so zero mean and <m v^2> = kT are inherited from the unit normal stream) for every engine's beta = 1/(kb*T), LAMMPS after its velocity scale and ASE's momentum draw included; lifted to the whole operation (C16_modify_variance*: every component of every atom of the velocities written by modify_velocities, momentum reset off) and to the reported kinetic energy (C16_modify_equipartition*: kin_new = (1/2) kT sum z^2 in the engine's unit); per-engine SI statements (C16_temperature_si_*: kg * (m/s)^2 of a written component = k_B(SI) T z^2 within 1e-6, CP2K 2e-6) over the constants regenerated from the sources; zero total momentum and a uniform shift after reset_momentum / Stationary; dek = kin_new - kin_old with kin_new the kinetic energy of the written velocities; positions, box, identities and every file except conf.*/genvel.* untouched; the result is a function of the first npart*dim stream values; source FILES whose optional entries are absent (no VELOCITY block in a .g96 frame, no velocity columns / no 'Box:' entry in an xyz snapshot: VelM.cfile has them as options, the readers' defaults are modelled) -- C16_file_written_is_modify_std: with the special case of GromacsEngine.modify_velocities in place the written genvel file is exactly modify_std of the frame as read, for every engine and every such file, so all theorems above carry over; C16_file_kin_new_is_written: one velocity line per atom, kin_new is the kinetic energy of the written lines; C16_file_no_velocities_kin_old: kin_old = 0 and dek infinite for a source without velocities (GROMACS: the stored system.ekin); C16_gromacs_no_velocity_block_special_case_needed: with a test that never fires the velocity block is empty while kin_new is non-zero (refutation witness). Closed numeric lemmas tie each engine's constants (kb, LAMMPS scale, CP2K mass factor, as exact rationals of the float literals in the sources) to the SI values. The model is tied to /repo by running the real prepare_shooting_point/modify_velocities of all five engine classes on generated inputs with prescribed draws and comparing files and return values with the extracted model, and by evaluating the statement itself (including an SI-unit temperature check independent of the engines' constants) on the implementation's output. Source frames of every set-up include, next to moving frames and a frame at rest, frames whose file has no velocities (GROMACS .g96 without VELOCITY block, TurtleMD/CP2K xyz without velocity columns, ASE Atoms without momenta) and, for the xyz engines, no 'Box:' entry (with and without velocities); the oracle reads the written genvel file back with its own parser: number of velocity entries = number of atoms, kinetic energy of the written velocities = reported kin_new, dek = kin_new - kin_old with kin_old the kinetic energy of the source frame as read (infinite when that is zero, i.e. also for a frame without velocities; GROMACS: the stored ekin), box = the file's, or the CP2K template's / none (TurtleMD) where the file has none.",
-    "note": "All theorems print 'Closed under the global context' (Q only, no real-number axioms, no Interval). Trusted: Coq kernel; extraction (ExtrOcamlBasic) + ocaml/util.ml + ocaml/c16_driver.ml; py/checks/c16.py (input writers, file parsers, recorder, tolerances); py/params_c16.py; the SI constants written in VelM.v / c16.py (2019 SI, CODATA 2018). Not modelled: floating-point rounding (model is exact; comparisons within 1e-9 relative plus the 9-decimal file format quantum), the square root (sigma is captured from the implementation and sigma^2*m*beta = 1 is checked exactly on it to 1e-12), the Gaussian law of numpy's normal(), ASE internals (thermalize_momenta/Stationary are modelled from their source and tied by the lock-step), velocities generated by the external GROMACS program. Frames without velocities: lammpstrj has no optional entries and a .g96 frame keeps its BOX block, so LAMMPS has no such input and GROMACS only the missing VELOCITY block; TurtleMD and CP2K extract the shooting frame with _extract_frame first, which writes zero velocity columns, so for them the velocity-less file is seen by the reader of the extraction, not by modify_velocities itself; these and the GROMACS cases are compared with the file-level model VelM.modify_file (special case on). The variance theorem concerns the draw; with zero_momentum the per-atom variance is reduced by the centre-of-mass part (C16_reset_kinetic quantifies it). CP2K's kb literal is 1.2e-6 away from the 2019 SI value, so its unit lemmas are shown to 2e-6 instead of 1e-6 (no lower bound is asserted: correcting the literal breaks nothing). Lead L5 (ASE draws from numpy's global generator, not engine.rgen) is recorded under C07; this check handles both sources and lists the one in use under coverage.draw_source_per_engine.",
+    "technique": "Coq theorems over an exact-rational model of draw/reset_momentum/kinetic_energy/modify_velocities (algebra by ring/field, unit constants by vm_compute on constants regenerated from the sources) + lock-step of the extracted model vs the real engine classes with a recording random generator; call sites: a model of the settings dictionary every move of tis.py hands to modify_velocities, in lock-step with the real shoot / wire_fencing / select_shoot / run_md and the real program on a spy engine, and the total momentum of the frames a real in-process engine (TurtleMD) writes inside the moves",
+    "text": "Unbounded theorems over Q: m*v^2 = kT*z^2 for every drawn component (so zero mean and <m v^2> = kT are inherited from the unit normal stream) for every engine's beta = 1/(kb*T), LAMMPS after its velocity scale and ASE's momentum draw included; lifted to the whole operation (C16_modify_variance*: every component of every atom of the velocities written by modify_velocities, momentum reset off) and to the reported kinetic energy (C16_modify_equipartition*: kin_new = (1/2) kT sum z^2 in the engine's unit); per-engine SI statements (C16_temperature_si_*: kg * (m/s)^2 of a written component = k_B(SI) T z^2 within 1e-6, CP2K 2e-6) over the constants regenerated from the sources; zero total momentum and a uniform shift after reset_momentum / Stationary; dek = kin_new - kin_old with kin_new the kinetic energy of the written velocities; positions, box, identities and every file except conf.*/genvel.* untouched; the result is a function of the first npart*dim stream values; source FILES whose optional entries are absent (no VELOCITY block in a .g96 frame, no velocity columns / no 'Box:' entry in an xyz snapshot: VelM.cfile has them as options, the readers' defaults are modelled) -- C16_file_written_is_modify_std: with the special case of GromacsEngine.modify_velocities in place the written genvel file is exactly modify_std of the frame as read, for every engine and every such file, so all theorems above carry over; C16_file_kin_new_is_written: one velocity line per atom, kin_new is the kinetic energy of the written lines; C16_file_no_velocities_kin_old: kin_old = 0 and dek infinite for a source without velocities (GROMACS: the stored system.ekin); C16_gromacs_no_velocity_block_special_case_needed: with a test that never fires the velocity block is empty while kin_new is non-zero (refutation witness). Closed numeric lemmas tie each engine's constants (kb, LAMMPS scale, CP2K mass factor, as exact rationals of the float literals in the sources) to the SI values. The model is tied to /repo by running the real prepare_shooting_point/modify_velocities of all five engine classes on generated inputs with prescribed draws and comparing files and return values with the extracted model, and by evaluating the statement itself (including an SI-unit temperature check independent of the engines' constants) on the implementation's output. Source frames of every set-up include, next to moving frames and a frame at rest, frames whose file has no velocities (GROMACS .g96 without VELOCITY block, TurtleMD/CP2K xyz without velocity columns, ASE Atoms without momenta) and, for the xyz engines, no 'Box:' entry (with and without velocities); the oracle reads the written genvel file back with its own parser: number of velocity entries = number of atoms, kinetic energy of the written velocities = reported kin_new, dek = kin_new - kin_old with kin_old the kinetic energy of the source frame as read (infinite when that is zero, i.e. also for a frame without velocities; GROMACS: the stored ekin), box = the file's, or the CP2K template's / none (TurtleMD) where the file has none. CALL SITES (wherever the package regenerates velocities): C16_call_site_settings -- for every move (shoot; wire_fencing with any number of jumps, usable or not) every dictionary handed to modify_velocities agrees with the ensemble's tis_set on every key except allowmaxlength (nothing is dropped: wire_fencing passes the ensemble's own dictionary with allowmaxlength switched on); C16_call_site_count (one regeneration per shooting move, one per jump); C16_call_site_momentum_zero -- zero_momentum = true in the ensemble's settings gives zero total momentum of the velocities written by EVERY regeneration of EVERY move, the ones inside a wire-fencing move included; C16_call_site_rebuilt_settings_refuted -- a wire-fencing move that builds a fresh {allowmaxlength, maxlength} dictionary for its sub-moves loses the request (TurtleMD then keeps the centre-of-mass motion). Tied to /repo by three families: (a) the real shoot / wire_fencing, called directly, through select_shoot and through run_md, on a spy engine (the lattice plug-in recording the vel_settings it is handed and the chain of tis.py functions on the stack), for configurations with every key that any engine's modify_velocities reads (discovered from the engine sources' ASTs on every run: zero_momentum, and the AMS engine's aimless / momentum / rescale / rescale_energy) at non-default values, each key also flipped alone, and nothing configured; n_jumps 1-3, with and without interface_cap, paths with one / two / no wire-fencing segment; oracle: every such key arrives at every call site with the configured value (a dropped or altered key is reported with the call site, the key, the value received and the value configured); the recorded dictionaries, in order and entry by entry, equal the model's (VelM.handed); (b) the real program (setup_config -> scheduler -> run_md, sh and wf ensembles, 1-2 workers) with the spy as plug-in engine and the settings in [simulation.tis_set] of the input file: same oracle on every regeneration of the run; (c) the real shoot / wire_fencing with a real TurtleMD engine (2 and 3 atoms, Langevin dynamics): every genvel.xyz written inside a move is read back with the independent parser and has zero total momentum when zero_momentum = true is configured (and the same settings oracle). Every place of the package that calls or passes on modify_velocities / prepare_shooting_point / shoot / wire_fencing / select_shoot / run_md is listed from the ASTs and must be one of the driven ones. An exception of the real code on a generated (legal) input -- engine constructor, prepare_shooting_point / modify_velocities, a move, the program -- is reported as a violation with that input.",
+    "note": "All theorems print 'Closed under the global context' (Q only, no real-number axioms, no Interval). Trusted: Coq kernel; extraction (ExtrOcamlBasic) + ocaml/util.ml + ocaml/c16_driver.ml; py/checks/c16.py (input writers, file parsers, recorder, tolerances); py/params_c16.py; the SI constants written in VelM.v / c16.py (2019 SI, CODATA 2018). Not modelled: floating-point rounding (model is exact; comparisons within 1e-9 relative plus the 9-decimal file format quantum), the square root (sigma is captured from the implementation and sigma^2*m*beta = 1 is checked exactly on it to 1e-12), the Gaussian law of numpy's normal(), ASE internals (thermalize_momenta/Stationary are modelled from their source and tied by the lock-step), velocities generated by the external GROMACS program. Frames without velocities: lammpstrj has no optional entries and a .g96 frame keeps its BOX block, so LAMMPS has no such input and GROMACS only the missing VELOCITY block; TurtleMD and CP2K extract the shooting frame with _extract_frame first, which writes zero velocity columns, so for them the velocity-less file is seen by the reader of the extraction, not by modify_velocities itself; these and the GROMACS cases are compared with the file-level model VelM.modify_file (special case on). The variance theorem concerns the draw; with zero_momentum the per-atom variance is reduced by the centre-of-mass part (C16_reset_kinetic quantifies it). CP2K's kb literal is 1.2e-6 away from the 2019 SI value, so its unit lemmas are shown to 2e-6 instead of 1e-6 (no lower bound is asserted: correcting the literal breaks nothing). Lead L5 (ASE draws from numpy's global generator, not engine.rgen) is recorded under C07; this check handles both sources and lists the one in use under coverage.draw_source_per_engine. Call sites: keys and values of the settings dictionaries are interned as integers for the model (True = 1, False = 0, key order kept: the model's dictionary update keeps the position of an existing key and appends a new one, as Python does); the spy engine is the lattice walk of py/plugins/engines.py with a recording modify_velocities (py/plugins/c16_plugins.py), the call site is read off the Python stack; which keys the engines read is taken from `vel_settings.get(\"k\", d)` / `vel_settings[\"k\"]` in every modify_velocities of infretis/classes/engines (any other use of the parameter makes the oracle demand every configured key); the AMS engine itself is not run (needs an AMS worker), its keys are covered through the spy; the TurtleMD family uses an order parameter that does not depend on velocities (Path.reverse of a wire-fencing move with a velocity-dependent one is the C20 finding L12); the external-program engines are not run inside moves (no executables), their modify_velocities is tied by the per-engine lock-step above and the settings they are handed by the spy families; tools/generate_H2_loadpaths.py calls shoot with a given shooting point only (no regeneration).",
     "design_ref": "4/C16",
 }
 LEVEL = "proof"
@@ -884,6 +885,480 @@ def run_parallel(runner, reqs, workers=8):
     return [a for p_ in parts for a in p_]
 
 
+# ----------------------------------------------------------------------------- call sites
+# "gives zero total momentum when requested" -- wherever the package regenerates velocities.  The only
+# caller of modify_velocities is tis.prepare_shooting_point (vel_settings = ens_set["tis_set"]), reached
+# from shoot, from every jump of wire_fencing (which hands its sub-moves a sub-ensemble), through
+# select_shoot / run_md and, in a real run, from the scheduler with the tis_set of the input file.  Three
+# families: (a) the real moves on a spy engine (lattice walk recording what modify_velocities is handed),
+# every velocity-related setting at non-default values, against the model VelM.handed; (b) the real
+# program (setup_config -> scheduler -> run_md) with the spy as plug-in engine; (c) the real moves with a
+# real in-process engine (TurtleMD): total momentum of every genvel.xyz written inside a move.
+CALL_SITES_EXPECTED = {
+    ("infretis/core/tis.py", "prepare_shooting_point", "modify_velocities", "call"),
+    ("infretis/core/tis.py", "shoot", "prepare_shooting_point", "call"),
+    ("infretis/core/tis.py", "wire_fencing", "shoot", "call"),
+    ("infretis/core/tis.py", "select_shoot", "shoot", "ref"),
+    ("infretis/core/tis.py", "select_shoot", "wire_fencing", "ref"),
+    ("infretis/core/tis.py", "run_md", "select_shoot", "call"),
+    ("infretis/setup.py", "setup_runner", "run_md", "ref"),                                   # the worker task: family (b)
+    ("infretis/tools/generate_H2_loadpaths.py", "create_initial_paths", "shoot", "call"),    # always with a shooting point: no regeneration
+}
+K_ALLOW, K_MAXLEN = "allowmaxlength", "maxlength"
+MISSING_KEY = "<no such key>"
+CS_GLOBAL_INTF = [0.5, 1.5, 2.5, 5.5]
+CS_ENS_NUM = 2                                      # ensemble [2+]: interfaces (0.5, 2.5, 5.5)
+CS_PATHS = {"crossing": [0, 1, 2, 3, 4, 3, 2, 1, 0], "two_humps": [0, 1, 3, 4, 3, 2, 3, 5, 4, 3, 1, 0], "below": [0, 1, 2, 1, 0]}
+
+
+def discover_call_sites():
+    reads = params_c16.vel_settings_reads()
+    sites = params_c16.velocity_call_sites()
+    keys = {}
+    for cls, d in reads.items():
+        for k, dfl in d["keys"].items():
+            keys.setdefault(k, {})[cls.split(":")[1]] = dfl
+    opaque = {cls: d["opaque"] for cls, d in reads.items() if d["opaque"]}
+    return reads, sites, keys, opaque
+
+
+def setting_variants(keys):
+    """Every key the engines read at non-default values: boolean keys at True and at False (zero_momentum
+    defaults to True for CP2K / GROMACS-gmx and to False elsewhere, so each value is non-default for some
+    engine), numeric / optional keys at two distinctive numbers; plus each key flipped alone."""
+    def is_bool(k):
+        return all(d in ("True", "False") for ds in keys[k].values() for d in ds)
+    ks = sorted(keys)
+    a = {k: (True if is_bool(k) else 1.5) for k in ks}
+    b = {k: (False if is_bool(k) else 0.25) for k in ks}
+    out = [a, b]
+    for k in ks:
+        for base in (a, b):
+            v = dict(base)
+            v[k] = (not base[k]) if is_bool(k) else (0.25 if base[k] == 1.5 else 1.5)
+            if v not in out:
+                out.append(v)
+    out.append({})                       # nothing configured: the engines' defaults must then be left to apply
+    return out
+
+
+def cs_lattice_path(root, orders, name):
+    from infretis.classes.path import Path as InfPath
+    from infretis.classes.system import System
+    fn = os.path.join(root, f"{name}.lat")
+    if not os.path.exists(fn):
+        with open(fn, "w") as f:
+            f.write("".join(f"{x}\n" for x in orders))
+    path = InfPath(maxlen=200)
+    for k, x in enumerate(orders):
+        s = System()
+        s.config = (fn, k)
+        s.order = [float(x)]
+        s.vel_rev = False
+        s.ekin = 0.0
+        s.vpot = 0.0
+        path.append(s)
+    path.status = "ACC"
+    path.generated = ("ld", 0, 0, 0)
+    path.path_number = 7
+    path.weights = (1.0,)
+    return path
+
+
+def cs_tis_set(desc):
+    t = {K_MAXLEN: desc["maxlength"], K_ALLOW: False, "n_jumps": desc["n_jumps"], "lambda_minus_one": False, "quantis": False, "accept_all": False}
+    if desc.get("cap") is not None:
+        t["interface_cap"] = desc["cap"]
+    t.update(desc["settings"])
+    return t
+
+
+def run_spy_case(desc, root):
+    """One real move on the spy engine.  desc: via (direct | select_shoot | run_md), move (sh | wf), n_jumps, cap,
+    path, seed, settings.  -> (records, status, configured tis_set, exception text or None)"""
+    import copy
+    import infretis.core.tis as tis
+    from plugins.c16_plugins import SpyLatticeEngine
+    from plugins.engines import IntOrder
+    work = tempfile.mkdtemp(prefix="cs_", dir=root)
+    exe = os.path.join(work, "exe")
+    os.makedirs(exe)
+    path = cs_lattice_path(root, CS_PATHS[desc["path"]], desc["path"])
+    eng = SpyLatticeEngine(wall=-4)
+    eng.exe_dir = exe
+    eng.order_function = IntOrder()
+    eng.rgen = np.random.default_rng(1000 + desc["seed"])
+    tis_set = cs_tis_set(desc)
+    configured = copy.deepcopy(tis_set)
+    ens = {"interfaces": (CS_GLOBAL_INTF[0], CS_GLOBAL_INTF[CS_ENS_NUM], CS_GLOBAL_INTF[-1]), "tis_set": tis_set, "mc_move": desc["move"],
+           "ens_name": f"{CS_ENS_NUM + 1:03d}", "start_cond": ("L",), "rgen": np.random.default_rng(desc["seed"])}
+    status, exc = None, None
+    saved = tis.ENGINES
+    try:
+        if desc["via"] == "direct":
+            fn = tis.shoot if desc["move"] == "sh" else tis.wire_fencing
+            _, _, status = fn(ens, path, eng, start_cond=("L",))
+        else:
+            tis.ENGINES = {"engine": [eng]}
+            picked = {CS_ENS_NUM: {"ens": ens, "traj": path, "pn_old": 7, "eng_idx": {"engine": 0}, "exe_dir": exe}}
+            if desc["via"] == "select_shoot":
+                _, _, status = tis.select_shoot(picked)
+            else:
+                mvs = ["sh"] * (len(CS_GLOBAL_INTF))
+                mvs[CS_ENS_NUM + 1] = desc["move"]
+                md = {"picked": picked, "moves": [], "mc_moves": mvs, "trial_len": [], "trial_op": [], "generated": [],
+                      "interfaces": list(CS_GLOBAL_INTF), "cap": desc.get("cap")}
+                status = tis.run_md(md)["status"]
+    except Exception as e:  # noqa: BLE001  a crash of the real move on a legal input is a finding
+        import traceback
+        exc = f"{type(e).__name__}: {e} [{traceback.format_exc(limit=4)[-500:]}]"
+    finally:
+        tis.ENGINES = saved
+        common.rmtree(work)
+    return eng.records, status, configured, exc
+
+
+def settings_errors(records, configured, keys, opaque, what):
+    """The oracle of the call-site families: every key an engine reads arrives with the configured value
+    (one message per regeneration, naming the call site, the keys, the values received and configured)."""
+    errs = []
+    check = set(keys) | ((set(configured) - {K_ALLOW}) if opaque else set())
+    order = sorted(check, key=lambda k: (k != "zero_momentum", k))
+    for i, rec in enumerate(records):
+        got = rec["got"]
+        bad = []
+        for k in order:
+            want = configured.get(k, MISSING_KEY)
+            have = got.get(k, MISSING_KEY)
+            if have != want or type(have) is not type(want):
+                bad.append((k, have, want))
+        if bad:
+            readers = "; ".join(f"{k}: " + (", ".join(f"{c} (default {'/'.join(d)})" for c, d in sorted(keys.get(k, {}).items())) or "an engine using the whole dictionary") for k, _, _ in bad)
+            errs.append(f"{what}: regeneration {i + 1} of {len(records)} at call site {' > '.join(rec['chain']) or '?'} > modify_velocities was handed "
+                        + ", ".join(f"{k} = {h!r}" for k, h, _ in bad) + "; the ensemble's tis_set has " + ", ".join(f"{k} = {w!r}" for k, _, w in bad)
+                        + f" (engines reading them -- {readers})")
+    return errs
+
+
+class Intern:
+    def __init__(self):
+        self.keys = {K_ALLOW: 0, K_MAXLEN: 1}
+        self.vals = {("bool", "True"): 1, ("bool", "False"): 0}
+
+    def k(self, x):
+        return self.keys.setdefault(x, len(self.keys))
+
+    def v(self, x):
+        return self.vals.setdefault((type(x).__name__, repr(x)), len(self.vals))
+
+    def enc(self, d):
+        return ",".join(f"{self.k(k)}:{self.v(v)}" for k, v in d.items()) or "-"
+
+
+def handed_request(desc, configured, usable):
+    it = Intern()
+    mv = "sh" if desc["move"] == "sh" else f"wf:{int(usable)}:{desc['n_jumps']}"
+    return f"handed 0 1 1 {mv} {it.enc(configured)}", it
+
+
+def compare_handed(ans, it, records):
+    if ans.startswith("ERR"):
+        return f"model runner error: {ans}"
+    impl = [it.enc(r["got"]) for r in records]
+    model = [] if ans == "-" else ans.split(";")
+    if ans == "KEYERROR":
+        return "model: KeyError('maxlength'), implementation ran"
+    if impl != model:
+        return f"dictionaries handed to modify_velocities (interned key:value, in order): implementation {impl} != model {model}"
+    return None
+
+
+def spy_cases(tier, variants):
+    q = tier == "quick"
+    out = []
+    for vi, st in enumerate(variants):
+        for via in ("direct", "select_shoot", "run_md"):
+            for seed in ((3,) if q else (3, 4, 5)):
+                out.append({"family": "callsite-spy", "via": via, "move": "sh", "n_jumps": 2, "cap": None, "path": "crossing", "seed": seed + vi, "maxlength": 60, "settings": st})
+                for nj in (1, 2, 3):
+                    for cap in (None, 4.5):
+                        for pth in (("crossing", "two_humps") if (q and via == "direct") or not q else ("crossing",)):
+                            out.append({"family": "callsite-spy", "via": via, "move": "wf", "n_jumps": nj, "cap": cap, "path": pth, "seed": seed + vi, "maxlength": 60, "settings": st})
+            out.append({"family": "callsite-spy", "via": via, "move": "wf", "n_jumps": 2, "cap": None, "path": "below", "seed": 9, "maxlength": 60, "settings": st})
+    return out
+
+
+# ---- (b) the real program with the spy engine as plug-in
+def _system_case(arg):
+    """Runs in a forked child (sysharness.run_many): write a lattice set-up, switch the engine to the spy,
+    add the velocity settings to [simulation.tis_set], run the real scheduler; -> records, tis_set of the file."""
+    import sysharness
+    import tomli
+    import tomli_w
+    wd, desc = arg
+    sysharness.write_setup(wd, n_intf=4, moves=desc["moves"], workers=desc["workers"], steps=desc["steps"], seed=desc["seed"], cap=desc["cap"], maxlength=80, n_jumps=desc["n_jumps"],
+                           init_reach=[0, 4, 4, 4])
+    fn = os.path.join(wd, "infretis.toml")
+    with open(fn, "rb") as f:
+        c = tomli.load(f)
+    c["engine"]["class"] = "SpyLatticeEngine"
+    c["engine"]["module"] = os.path.join(os.path.dirname(sysharness.PLUGINS), "c16_plugins.py")
+    c["simulation"]["tis_set"].pop("zero_momentum", None)
+    c["simulation"]["tis_set"].update(desc["settings"])
+    with open(fn, "wb") as f:
+        tomli_w.dump(c, f)
+    log = os.path.join(wd, "spy.jsonl")
+    os.environ["INFV_C16_SPY_LOG"] = log
+    res = sysharness.run_sim(wd)
+    recs = []
+    if os.path.exists(log):
+        with open(log) as f:
+            recs = [json.loads(ln) for ln in f if ln.strip()]
+    return {"status": res.get("status"), "cstep": res.get("cstep"), "records": recs, "tis_set": c["simulation"]["tis_set"]}
+
+
+def system_cases(tier, variants):
+    out = []
+    for vi, st in enumerate(variants[:4] if tier == "quick" else variants):
+        out.append({"family": "callsite-system", "moves": ["sh", "sh", "wf", "wf"], "workers": 1 + vi % 2, "steps": 24 if tier == "quick" else 60, "seed": 5 + vi,
+                    "cap": 3.25 if vi % 2 else None, "n_jumps": 2 + vi % 2, "settings": st})
+    return out
+
+
+# ---- (c) the real moves with a real in-process engine
+class XOrder:
+    """x of the first atom (not velocity dependent: Path.reverse of a wire-fencing move does not re-evaluate it)"""
+    velocity_dependent = False
+
+    def calculate(self, system):
+        return [float(system.pos[0][0])]
+
+
+TURTLE_INTF = (1.0, 1.2, 2.0)
+
+
+def run_turtle_case(desc, root):
+    """Real shoot / wire_fencing with a TurtleMD engine (LangevinInertia, weak Lennard-Jones, 3-D periodic box).
+    desc: n, masses, move, n_jumps, zero_momentum (True | False | None = key absent), seed.
+    -> (records [{chain, got, P, slack, nvel}], status, configured tis_set, exception text or None)"""
+    import copy
+    import infretis.core.tis as tis
+    from infretis.classes.engines.turtlemdengine import TurtleMDEngine
+    from infretis.classes.path import Path as InfPath
+    from infretis.classes.system import System
+    from plugins.c16_plugins import tis_chain
+    n = desc["n"]
+    masses = list(desc["masses"])
+    names = [("H", "O", "C", "N")[i % 4] for i in range(n)]
+    setup = {"kind": "turtle", "T": 300.0, "names": names, "masses": masses, "kb": KB_KJMOL}
+    kit = Kit("turtle", tempfile.mkdtemp(prefix="cs_tmd_", dir=root))
+    work = kit.newdir("csw")
+    pos0 = [[1.1, 0.5 + 0.9 * i, 0.5] for i in range(n)]
+    records, status, exc, configured = [], None, None, None
+    try:
+        with contextlib.redirect_stdout(io.StringIO()):
+            eng = TurtleMDEngine(timestep=0.004, subcycles=1, temperature=300.0, boltzmann=KB_KJMOL,
+                                 integrator={"class": "LangevinInertia", "settings": {"gamma": 0.5, "beta": 1.0 / (KB_KJMOL * 300.0)}},
+                                 potential={"class": "LennardJones", "settings": {"parameters": {"1": {"sigma": 0.3, "epsilon": 0.01, "rcut": 0.5}}}},
+                                 particles={"mass": masses, "name": names, "pos": pos0},
+                                 box={"periodic": [True, True, True], "low": [0, 0, 0], "high": [4, 4, 4]})
+        eng.exe_dir = kit.newdir("exe")
+        eng.order_function = XOrder()
+        eng.rgen = np.random.default_rng(desc["seed"])
+        tis_set = {K_MAXLEN: 3000, K_ALLOW: True, "n_jumps": desc["n_jumps"], "interface_cap": 1.8, "aimless": True}
+        if desc["zero_momentum"] is not None:
+            tis_set["zero_momentum"] = desc["zero_momentum"]
+        ens = {"interfaces": TURTLE_INTF, "tis_set": tis_set, "mc_move": "sh", "ens_name": "002", "start_cond": ("L",), "rgen": np.random.default_rng(desc["seed"] + 1)}
+        # a starting path: one forward/backward propagation from a frame just right of the left interface, first atom moving right
+        start = os.path.join(work, "start.xyz")
+        with open(start, "w") as f:
+            f.write(xyz_frame(names, pos0, [[2.0, 0.1, 0.0]] + [[0.0, 0.0, 0.0]] * (n - 1), [4, 4, 4]))
+        p0 = None
+        for _ in range(40):
+            sp = System()
+            sp.set_pos((start, 0))
+            sp.order = [1.1]
+            sp.vel_rev = False
+            ok, cand, st = tis.shoot(ens, InfPath(maxlen=3000), eng, shooting_point=sp)
+            if st == "ACC":
+                p0 = cand
+                break
+        if p0 is None:
+            return records, "no-start-path", None, None
+        tis_set[K_ALLOW] = False
+        ens["mc_move"] = desc["move"]
+        configured = copy.deepcopy(tis_set)
+        orig = type(eng).modify_velocities
+        M = [fr(m) for m in masses]
+
+        def spy(system, vel_settings):
+            got = {str(k): (v if isinstance(v, (bool, int, float, str, type(None))) else repr(v)) for k, v in dict(vel_settings).items()}
+            chain = tis_chain()
+            out = orig(eng, system, vel_settings)
+            r = kit.read(system.config[0], setup)
+            vf = [[fr(x) for x in row] for row in r["vel"]]
+            q = FILE_QUANTUM["turtle"]
+            vmag = max([abs(x) for row in vf for x in row] + [Fr(0)])
+            records.append({"chain": chain, "got": got, "nvel": r["nvel"], "file": os.path.basename(system.config[0]),
+                            "P": [sum(M[i] * vf[i][j] for i in range(n)) for j in range(3)], "slack": sum(M) * q + REL * sum(M) * vmag})
+            return out
+
+        eng.modify_velocities = spy
+        fn = tis.shoot if desc["move"] == "sh" else tis.wire_fencing
+        _, _, status = fn(ens, p0, eng, start_cond=("L",))
+    except Exception as e:  # noqa: BLE001
+        import traceback
+        exc = f"{type(e).__name__}: {e} [{traceback.format_exc(limit=4)[-500:]}]"
+    return records, status, configured, exc
+
+
+def turtle_cases(tier):
+    out = []
+    seeds = (11,) if tier == "quick" else (11, 12, 13)
+    for n, masses in ((2, [1.008, 1.008]), (3, [1.0, 16.0, 12.0])):
+        for zm in (True, False, None):
+            for seed in seeds:
+                out.append({"family": "callsite-turtlemd", "n": n, "masses": masses, "move": "wf", "n_jumps": 3 if n == 2 else 2, "zero_momentum": zm, "seed": seed})
+                if zm is not False:
+                    out.append({"family": "callsite-turtlemd", "n": n, "masses": masses, "move": "sh", "n_jumps": 2, "zero_momentum": zm, "seed": seed})
+    return out
+
+
+def turtle_errors(records, configured):
+    errs = []
+    for i, rec in enumerate(records):
+        if rec["nvel"] != len(rec["P"]) and rec["nvel"] == 0:
+            errs.append(f"regeneration {i + 1}: {rec['file']} holds no velocities")
+        if configured.get("zero_momentum") is True:
+            for j in range(3):
+                if abs(rec["P"][j]) > rec["slack"]:
+                    errs.append(f"zero_momentum = true was requested for the ensemble, but the velocities written to {rec['file']} by regeneration {i + 1} of {len(records)} "
+                                f"(call site {' > '.join(rec['chain'])} > modify_velocities, handed zero_momentum = {rec['got'].get('zero_momentum', MISSING_KEY)!r}) "
+                                f"have total momentum component {j} = {float(rec['P'][j])!r} (|.| <= {float(rec['slack']):.2e} expected)")
+                    break
+    return errs
+
+
+def callsite_stage(ctx, runner, root):
+    """Families (a), (b), (c).  Returns nothing; registers violations / coverage on ctx."""
+    tier = ctx.tier
+    try:
+        reads, sites, keys, opaque = discover_call_sites()
+    except Exception as e:  # noqa: BLE001
+        ctx.violation(f"call sites: the engine / move sources could not be analysed: {e!r}", {"obligation": "params_c16.vel_settings_reads / velocity_call_sites"}, False)
+        reads, sites, opaque = {}, [], {}
+        keys = {"zero_momentum": {"?": ["?"]}}
+    ctx.cov["call_sites"] = {"keys_read_by_engines": {k: v for k, v in sorted(keys.items())}, "whole_dictionary_used_by": opaque,
+                             "call_sites_found": [list(x) for x in sites]}
+    new_sites = [x for x in sites if tuple(x) not in CALL_SITES_EXPECTED]
+    if new_sites:
+        ctx.violation(f"a place of the package that calls or passes on a velocity-regenerating function is not driven by the call-site family: {new_sites[:3]}",
+                      {"obligation": "py/checks/c16.py CALL_SITES_EXPECTED", "new": [list(x) for x in new_sites]}, False)
+    variants = setting_variants(keys)
+    reported = {"oracle": 0, "corr": 0}
+    per_family = {}
+
+    def report(errs, desc, extra=None):
+        reported["oracle"] += 1
+        fam = desc.get("family")
+        per_family[fam] = per_family.get(fam, 0) + 1
+        if per_family[fam] <= 2:
+            ctx.violation(f"C16 statement fails on the implementation (call site): {errs[0]}", {"case": desc, "errors": errs[:6], **(extra or {})}, True)
+
+    # ---- (a) spy engine, lock-step with VelM.handed
+    reqs, metas = [], []
+    n_calls = {"sh": 0, "wf": 0}
+    for desc in spy_cases(tier, variants):
+        records, status, configured, exc = run_spy_case(desc, root)
+        ctx.count(("callsite-spy", json.dumps(desc, sort_keys=True)))
+        ctx.dist(f"call site/spy/{desc['via']}/{desc['move']}")
+        if exc is not None:
+            report([f"the real move raised {exc}"], desc)
+            continue
+        errs = settings_errors(records, configured, keys, opaque, f"{desc['via']} {desc['move']}")
+        usable = not (desc["move"] == "wf" and status == "NSG" and not records)
+        expected_n = 1 if desc["move"] == "sh" else (desc["n_jumps"] if usable else 0)
+        n_calls[desc["move"]] += len(records)
+        chain_ok = all(r["chain"][-1:] == ["prepare_shooting_point"] and (("wire_fencing" in r["chain"]) == (desc["move"] == "wf")) for r in records)
+        if errs:
+            report(errs, desc, {"handed": [r["got"] for r in records], "configured": configured})
+            continue
+        rq, it = handed_request(desc, configured, usable)
+        reqs.append(rq)
+        metas.append((desc, it, records, expected_n, chain_ok, status))
+    outs = runner.run(reqs) if (runner is not None and reqs) else [None] * len(reqs)
+    corr_pending = []
+    for rq, ans, (desc, it, records, expected_n, chain_ok, status) in zip(reqs, outs, metas):
+        bad = None
+        if len(records) != expected_n:
+            bad = f"{len(records)} velocity regenerations, expected {expected_n} (status {status})"
+        elif not chain_ok:
+            bad = f"unexpected call chain {[r['chain'] for r in records][:2]}"
+        elif ans is not None:
+            bad = compare_handed(ans, it, records)
+        if bad:
+            reported["corr"] += 1
+            corr_pending.append((f"correspondence model/implementation broken for the settings handed to modify_velocities ({desc['via']} {desc['move']}): {bad} "
+                                 f"(every engine-read key arrived with its configured value in this case)", {"correspondence": "c16 runner `handed` vs real moves on the spy engine", "case": desc, "request": rq, "model": ans}))
+    if n_calls["wf"] == 0 or n_calls["sh"] == 0:
+        ctx.violation(f"call-site family (a) observed no velocity regeneration inside {'wire_fencing' if n_calls['wf'] == 0 else 'shoot'}: the family does not reach the call site",
+                      {"obligation": "coverage of the call-site family", "regenerations": n_calls}, False)
+
+    # ---- (b) the real program
+    import sysharness
+    sdescs = system_cases(tier, variants)
+    sroot = tempfile.mkdtemp(prefix="cs_sys_", dir=root)
+    sres = sysharness.run_many(_system_case, [(os.path.join(sroot, f"run{i}"), d) for i, d in enumerate(sdescs)], jobs=4, timeout=300)
+    sys_calls = {"inside wire_fencing": 0, "plain shoot": 0}
+    for desc, (tag, res) in zip(sdescs, sres):
+        ctx.count(("callsite-system", json.dumps(desc, sort_keys=True)))
+        ctx.dist("call site/system run")
+        if tag != "ok":
+            report([f"the real program raised / did not finish on a legal input: {str(res)[-600:]}"], desc)
+            continue
+        configured = {k: v for k, v in res["tis_set"].items()}
+        errs = settings_errors(res["records"], configured, keys, opaque, "run of the program (scheduler > run_md)")
+        for r in res["records"]:
+            sys_calls["inside wire_fencing" if "wire_fencing" in r["chain"] else "plain shoot"] += 1
+        if res["status"] != "done":
+            errs.append(f"the run ended with status {res['status']}")
+        if errs:
+            report(errs, desc, {"configured": configured})
+    if sdescs and min(sys_calls.values()) == 0:
+        ctx.violation(f"call-site family (b) observed no velocity regeneration for: {[k for k, v in sys_calls.items() if v == 0]}",
+                      {"obligation": "coverage of the call-site family", "regenerations": sys_calls}, False)
+
+    # ---- (c) TurtleMD: momentum of the frames written inside the moves
+    t_calls = {"inside wire_fencing": 0, "plain shoot": 0, "momentum kept (not requested)": 0}
+    for desc in turtle_cases(tier):
+        records, status, configured, exc = run_turtle_case(desc, root)
+        ctx.count(("callsite-turtlemd", json.dumps(desc, sort_keys=True)))
+        ctx.dist(f"call site/turtlemd/{desc['move']}/zero_momentum={desc['zero_momentum']}")
+        if exc is not None:
+            report([f"the real move raised {exc}"], desc)
+            continue
+        if configured is None:
+            ctx.dist("call site/turtlemd/no starting path")
+            continue
+        errs = turtle_errors(records, configured) + settings_errors(records, configured, keys, opaque, f"TurtleMD {desc['move']}")
+        for r in records:
+            t_calls["inside wire_fencing" if "wire_fencing" in r["chain"] else "plain shoot"] += 1
+            if configured.get("zero_momentum") is not True and any(abs(p) > r["slack"] for p in r["P"]):
+                t_calls["momentum kept (not requested)"] += 1
+        if errs:
+            report(errs, desc, {"configured": configured, "observed": [{"chain": r["chain"], "handed": r["got"], "total_momentum": [float(p) for p in r["P"]]} for r in records]})
+    if t_calls["inside wire_fencing"] == 0:
+        ctx.violation("call-site family (c) observed no velocity regeneration inside a TurtleMD wire-fencing move", {"obligation": "coverage of the call-site family", "regenerations": t_calls}, False)
+    # DESIGN 2.4: a broken correspondence starts the search for a failing input of the property; when the oracle of
+    # these families exhibits one, that input is the report
+    if not reported["oracle"]:
+        for what, payload in corr_pending[:3]:
+            ctx.violation(what, payload, False)
+    ctx.cov["call_sites"].update({"oracle_failures": reported["oracle"], "model_disagreements": reported["corr"], "setting_variants": variants, "spy_regenerations": n_calls, "spy_cases_compared_with_model": len(reqs),
+                                  "system_run_regenerations": sys_calls, "turtlemd_regenerations": t_calls})
+    ctx.sample({"call_site_case": metas[len(metas) // 2][0] if metas else None, "handed": [r["got"] for r in metas[len(metas) // 2][2]] if metas else None}, cap=8)
+
+
 # ----------------------------------------------------------------------------- the check
 KINDS = ["turtle", "cp2k", "lammps", "gromacs", "ase"]
 
@@ -937,7 +1412,21 @@ def _run(ctx, runner, root):
     kits = {k: Kit(k, root) for k in KINDS}
     full_done = set()
 
-    ase_fixed, ase_src = detect_ase_variant(kits["ase"], rng)
+    def crashed(what, exc, desc):
+        """an exception of the real code on a legal input is a finding with that input"""
+        import traceback
+        crashes.append(what)
+        if len(crashes) <= 3:
+            ctx.violation(f"C16 statement fails on the implementation ({desc.get('engine', '?')}): {what} raised {type(exc).__name__}: {exc}",
+                          {"case": desc, "errors": [f"{what} raised {type(exc).__name__}: {exc}"], "traceback": traceback.format_exc()[-1500:]}, True)
+
+    crashes = []
+    try:
+        ase_fixed, ase_src = detect_ase_variant(kits["ase"], rng)
+    except Exception as e:  # noqa: BLE001
+        crashed("ASEEngine construction / modify_velocities (two equal masses, zero_momentum on)", e,
+                {"engine": "ase", "setup": {"kind": "ase", "T": 300.0, "names": ["H", "H"], "masses": [1.0, 1.0]}, "zero_momentum": True})
+        ase_fixed, ase_src = True, "engine.rgen"
     ctx.cov["ase_variant"] = {"kin_new_after_Stationary": ase_fixed, "draw_source": ase_src}
 
     # constants of the model against the running implementation (kb, beta, zero_momentum default)
@@ -946,11 +1435,15 @@ def _run(ctx, runner, root):
     for kind in KINDS:
         kit = kits[kind]
         for setup in setups_for(kind, tier, rng):
-            eng = kit.build(setup)
+            try:
+                eng = kit.build(setup)
+                if kind == "cp2k":
+                    setup["masses"] = kit.engine_masses(eng, setup)
+            except Exception as e:  # noqa: BLE001
+                crashed(f"construction of the {kind} engine", e, {"engine": kind, "setup": setup})
+                continue
             n = len(setup["names"])
             T = setup["T"]
-            if kind == "cp2k":
-                setup["masses"] = kit.engine_masses(eng, setup)
             kbu = qs(fr(setup.get("kb", 0.0)))
             const_reqs.append(f"beta {kind} {kbu} {qs(fr(T))}")
             const_meta.append(("beta", kind, setup, eng.beta))
@@ -976,7 +1469,7 @@ def _run(ctx, runner, root):
                     try:
                         obs, errs = evaluate(kit, eng, setup, frames, cfgs, files, idx, zm, stream, ekins, ase_src)
                     except Exception as e:   # noqa: BLE001
-                        ctx.violation(f"modify_velocities raised {e!r} for {kind}", {"case": desc}, False)
+                        crashed("prepare_shooting_point / modify_velocities", e, desc)
                         continue
                     draw_sources[kind] = obs["draw_source"]
                     per_zm[zm] = obs
@@ -988,7 +1481,11 @@ def _run(ctx, runner, root):
                     ctx.dist(f"{kind}/source file: " + ("complete" if not missing_of(frames[idx]) else "no " + missing_of(frames[idx])))
                 # same draws -> same output (second run on the same inputs)
                 if pi % 7 == 0 and True in per_zm:
-                    obs2, _ = evaluate(kit, eng, setup, frames, cfgs, files, idx, True, stream, ekins, ase_src)
+                    try:
+                        obs2, _ = evaluate(kit, eng, setup, frames, cfgs, files, idx, True, stream, ekins, ase_src)
+                    except Exception as e:   # noqa: BLE001
+                        crashed("the second run of prepare_shooting_point / modify_velocities on the same input", e, desc)
+                        continue
                     if obs2["genvel_bytes"] != per_zm[True]["genvel_bytes"] or obs2["ret"] != per_zm[True]["ret"]:
                         oracle_fail.setdefault("not reproducible: same draws gave another genvel file / return value", desc)
                     ctx.count(("repro", kind, pi, json.dumps(setup, sort_keys=True)))
@@ -1010,7 +1507,18 @@ def _run(ctx, runner, root):
                         oracle_fail.setdefault("wrong temperature: " + msg, dict(desc, zero_momentum=False))
             # real numpy generator: reproducible from the job's stream, exact consumption
             for seed in ([11, 12] if tier == "quick" else [11, 12, 13, 14, 15]):
-                real_case(ctx, kit, eng, setup, frames, cfgs, files, ekins, seed, ase_src, ase_fixed, reqs, metas, oracle_fail)
+                try:
+                    real_case(ctx, kit, eng, setup, frames, cfgs, files, ekins, seed, ase_src, ase_fixed, reqs, metas, oracle_fail)
+                except Exception as e:   # noqa: BLE001
+                    crashed("prepare_shooting_point / modify_velocities with a real numpy Generator", e,
+                            {"engine": kind, "setup": setup, "frames": frames, "real_generator_seed": seed, "ekins": list(ekins)})
+
+    # call sites: the moves of tis.py, the real program, a real in-process engine
+    try:
+        callsite_stage(ctx, runner, root)
+    except Exception as e:   # noqa: BLE001
+        import traceback
+        ctx.violation(f"call-site families could not be evaluated: {e!r}", {"obligation": "py/checks/c16.py callsite_stage", "traceback": traceback.format_exc()[-2000:]}, False)
 
     # zero_momentum defaults
     for kind in KINDS:
@@ -1068,7 +1576,9 @@ def _run(ctx, runner, root):
         f"all 27 streams over {[str(a) for a in ALPHA]} for one atom / {'all 729 (first temperature of each engine; a sample of 80 for the other temperatures)' if tier == 'thorough' else 'a sample of the 729'} for two atoms / sampled for more, plus dyadic random streams, "
         f"each x zero_momentum in (absent, False, True), shooting in turn from a moving frame, a frame at rest (kin_old = 0) and the frames whose file lacks the optional entries (no velocities; xyz: no 'Box:' entry, with and without velocities), "
         f"GROMACS with stored ekin in (None, 0.0, values); plus runs with a real numpy Generator per set-up (seeded) checking exact consumption npart*3 in row-major order. "
-        f"A case is distinct by its model request line (engine, masses, source frame, sigma, stream, setting); all are non-trivial (velocities are regenerated in each).")
+        f"A case is distinct by its model request line (engine, masses, source frame, sigma, stream, setting); all are non-trivial (velocities are regenerated in each). "
+        f"Call sites: one evaluation = one real move (or one real run of the program) with all regenerations it makes; spy family: every setting variant (all engine-read keys at value set A, at value set B, each key flipped alone, nothing configured) "
+        f"x (direct, select_shoot, run_md) x (sh; wf with n_jumps 1..3 x cap absent / 4.5 x paths) ; program runs: 4 variants (thorough: all) on 4 interfaces with moves sh sh wf wf; TurtleMD: 2 and 3 atoms x zero_momentum true / false / absent x (wf, sh).")
     ctx.cov["correspondence"] = {"compared": len(reqs) if runner is not None else 0, "disagreements": corr_fail, "constants_compared": len(const_reqs), "constants_disagree": const_bad,
                                  "si_temperature_components_checked": si_done, "si_skipped_format_too_coarse": si_skipped}
     ctx.cov["draw_source_per_engine"] = draw_sources
@@ -1083,12 +1593,15 @@ def _run(ctx, runner, root):
     ctx.cov["trusted_base"] += ["extraction: ExtrOcamlBasic only; ocaml/util.ml + ocaml/c16_driver.ml",
                                 "py/checks/c16.py: input writers, independent parsers of genvel.*, recorder generator, tolerances",
                                 "py/params_c16.py (constants and expression shapes read from the Python AST)",
-                                "SI constants (2019 SI / CODATA 2018) in VelM.v and c16.py"]
+                                "SI constants (2019 SI / CODATA 2018) in VelM.v and c16.py",
+                                "call sites: py/plugins/c16_plugins.py (spy engine on py/plugins/engines.py, call site from the Python stack), py/sysharness.py (in-process runner of the real scheduler), "
+                                "params_c16.vel_settings_reads / velocity_call_sites (AST readers), interning of keys and values for the model"]
     ctx.assumptions += ["positive masses, T > 0; LAMMPS needs >= 2 atoms (engine cannot be constructed for one)",
                         "floating-point rounding not modelled: 1e-9 relative + half a unit of the 9-decimal file formats (xyz, g96)",
                         "source coordinates have <= 6 decimals, velocities <= 9, box <= 4 (exactly representable in every format)",
                         "numpy's normal(loc, scale, size) = loc + scale * standard_normal in C order (checked against a real Generator per set-up)",
-                        "ASE: sigma_p = sqrt(m * units.kB * T) and Stationary as in the installed ASE " + _ase_version()]
+                        "ASE: sigma_p = sqrt(m * units.kB * T) and Stationary as in the installed ASE " + _ase_version(),
+                        "call sites: the settings are a flat dictionary of scalars (as a TOML table gives); velocity regeneration is reached only through the functions listed under coverage.call_sites"]
 
 
 def _ase_version():
@@ -1149,6 +1662,8 @@ def replay(doc):
     logging.disable(logging.CRITICAL)
     print(json.dumps({k: doc[k] for k in ("property", "what", "found_failing_input")}, indent=1))
     case = doc["replay"].get("case")
+    if case and str(case.get("family", "")).startswith("callsite"):
+        return replay_callsite(case)
     if not case or "engine" not in case:
         print(json.dumps(doc["replay"], indent=1)[:4000])
         return 0
@@ -1160,10 +1675,17 @@ def replay(doc):
         import random
         ase_fixed, ase_src = detect_ase_variant(kit, random.Random(1)) if case["engine"] == "ase" else (True, "engine.rgen")
         setup = case["setup"]
-        eng = kit.build(setup)
-        cfgs, files = kit.write_source(setup, case["frames"])
-        stream = [common.parse_q(z) for z in case["stream"]]
-        obs, errs = evaluate(kit, eng, setup, case["frames"], cfgs, files, case["idx"], case["zero_momentum"], stream, case["ekins"], ase_src)
+        try:
+            eng = kit.build(setup)
+            if "frames" not in case or "stream" not in case:
+                print("the engine is constructed without error now; the stored case has no frames/stream to re-run")
+                return 0
+            cfgs, files = kit.write_source(setup, case["frames"])
+            stream = [common.parse_q(z) for z in case["stream"]]
+            obs, errs = evaluate(kit, eng, setup, case["frames"], cfgs, files, case["idx"], case["zero_momentum"], stream, case["ekins"], ase_src)
+        except Exception as e:  # noqa: BLE001
+            print(f"implementation raises now: {type(e).__name__}: {e}")
+            return 1
         req = request_for(case["engine"], setup, obs, case["frames"], case["idx"], case["zero_momentum"], stream,
                           case["ekins"][case["idx"]], ase_fixed)
         ans = common.Runner("c16").run([req])[0]
@@ -1171,6 +1693,44 @@ def replay(doc):
         print("oracle failures now:", errs)
         print("model now answers:", ans[:1500])
         print("model/implementation differences now:", compare_model(case["engine"], obs, ans, len(stream)))
+        return 1 if errs else 0
+    finally:
+        os.chdir(cwd)
+        common.rmtree(root)
+        logging.disable(logging.NOTSET)
+
+
+
+def replay_callsite(case):
+    import logging
+    root = common.scratch_dir("infv_c16r_")
+    cwd = os.getcwd()
+    try:
+        os.chdir(root)
+        _, _, keys, opaque = discover_call_sites()
+        fam = case["family"]
+        print("case:", json.dumps(case))
+        if fam == "callsite-spy":
+            records, status, configured, exc = run_spy_case(case, root)
+            errs = [f"the real move raised {exc}"] if exc else settings_errors(records, configured, keys, opaque, f"{case['via']} {case['move']}")
+            print("status:", status, " handed to modify_velocities:", json.dumps([{"call_site": r["chain"], "vel_settings": r["got"]} for r in records], indent=1))
+            if not exc:
+                usable = not (case["move"] == "wf" and status == "NSG" and not records)
+                rq, it = handed_request(case, configured, usable)
+                print("model vs implementation:", compare_handed(common.Runner("c16").run([rq])[0], it, records) or "agree")
+        elif fam == "callsite-system":
+            import sysharness
+            (tag, res), = sysharness.run_many(_system_case, [(os.path.join(root, "run"), case)], jobs=1, timeout=300)
+            if tag != "ok":
+                errs = [f"the real program raised / did not finish: {str(res)[-800:]}"]
+            else:
+                errs = settings_errors(res["records"], res["tis_set"], keys, opaque, "run of the program (scheduler > run_md)")
+                print("status:", res["status"], " regenerations:", len(res["records"]))
+        else:
+            records, status, configured, exc = run_turtle_case(case, root)
+            errs = [f"the real move raised {exc}"] if exc else (turtle_errors(records, configured) + settings_errors(records, configured, keys, opaque, f"TurtleMD {case['move']}") if configured else [])
+            print("status:", status, json.dumps([{"call_site": r["chain"], "vel_settings": r["got"], "file": r["file"], "total_momentum": [float(p) for p in r["P"]]} for r in records], indent=1))
+        print("oracle failures now:", errs[:6])
         return 1 if errs else 0
     finally:
         os.chdir(cwd)
